@@ -163,7 +163,11 @@ func VerifC02SlidingLate() {
 	ooo := zzverif.NondetInt64("ooo")
 	zzverif.Assume(ooo >= 0 && ooo <= slide)
 	lateness := zzverif.NondetInt64("lateness")
-	zzverif.Assume(lateness >= 1 && lateness <= 2*slide)
+	lateMax := int64(zzverif.Param("late_max", 0)) // 0: up to two slides
+	if lateMax == 0 {
+		lateMax = 2 * slide
+	}
+	zzverif.Assume(lateness >= 1 && lateness <= lateMax)
 	rec := &verifRecorder{}
 	sw := verifSliding(time.Duration(size), time.Duration(slide), time.Duration(ooo), time.Duration(lateness), rec)
 	ts := make([]int64, k)
